@@ -1,6 +1,7 @@
 package vc
 
 import (
+	"fmt"
 	"go/types"
 	"math/big"
 
@@ -55,7 +56,7 @@ func init() {
 		"strings.TrimPrefix": intrTrimPrefix,
 		"strings.TrimSuffix": intrTrimSuffix,
 		"strings.TrimSpace":  intrTrimSpace,
-		"strings.Contains":   intrFreshBool,
+		"strings.Contains":   intrContains,
 		"strings.EqualFold":  intrFreshBool,
 		"strings.Repeat":     intrRepeat,
 		"encoding/hex.EncodeToString": intrHexEncode,
@@ -406,8 +407,29 @@ func (e *Exec) needInt(what string) {
 	}
 }
 
+// timeAbstract: in bit-vector mode time.Time values are opaque; scalar results are unconstrained.
+func (e *Exec) timeAbstract(st *State, rt types.Type, what string) []callRes {
+	e.UsedIntrinsics["time."+what+" (bit-vector mode: opaque time value, unconstrained result)"] = true
+	if rt == nil {
+		return []callRes{{st, nil}}
+	}
+	if isTimeType(rt) {
+		return []callRes{{st, &OpaqueVal{T: rt, Name: "time"}}}
+	}
+	if isIntType(rt) {
+		v := e.C.Fresh("time."+what, e.sortOf(rt))
+		return []callRes{{st, v}}
+	}
+	if isBoolType(rt) {
+		return []callRes{{st, e.C.Fresh("time."+what, BoolS)}}
+	}
+	return []callRes{{st, e.freshResult(st, rt, "time."+what)}}
+}
+
 func intrTimeUnix(e *Exec, st *State, fr *Frame, args []Val, in ssa.Instruction, rt types.Type) []callRes {
-	e.needInt("time.Unix")
+	if !e.IntMode {
+		return e.timeAbstract(st, rt, "Unix")
+	}
 	c := e.C
 	sec, ns := args[0].(*Term), args[1].(*Term)
 	g := c.Inti(1000000000)
@@ -416,12 +438,16 @@ func intrTimeUnix(e *Exec, st *State, fr *Frame, args []Val, in ssa.Instruction,
 }
 
 func intrTimeGetUnix(e *Exec, st *State, fr *Frame, args []Val, in ssa.Instruction, rt types.Type) []callRes {
-	e.needInt("Time.Unix")
+	if !e.IntMode {
+		return e.timeAbstract(st, rt, "Time.Unix")
+	}
 	return []callRes{{st, args[0].(*TimeVal).Sec}}
 }
 
 func intrTimeUnixNano(e *Exec, st *State, fr *Frame, args []Val, in ssa.Instruction, rt types.Type) []callRes {
-	e.needInt("Time.UnixNano")
+	if !e.IntMode {
+		return e.timeAbstract(st, rt, "UnixNano")
+	}
 	c := e.C
 	t := args[0].(*TimeVal)
 	v := c.Add(c.Mul(t.Sec, c.Inti(1000000000)), t.Nsec)
@@ -434,13 +460,15 @@ func intrTimeUnixNano(e *Exec, st *State, fr *Frame, args []Val, in ssa.Instruct
 }
 
 func intrTimeNanosecond(e *Exec, st *State, fr *Frame, args []Val, in ssa.Instruction, rt types.Type) []callRes {
-	e.needInt("Time.Nanosecond")
+	if !e.IntMode {
+		return e.timeAbstract(st, rt, "Nanosecond")
+	}
 	return []callRes{{st, args[0].(*TimeVal).Nsec}}
 }
 
 func intrTimeNow(e *Exec, st *State, fr *Frame, args []Val, in ssa.Instruction, rt types.Type) []callRes {
 	if !e.IntMode {
-		return []callRes{{st, &OpaqueVal{Name: "time.Now"}}}
+		return e.timeAbstract(st, rt, "Now")
 	}
 	c := e.C
 	sec := c.Fresh("now.sec", IntS)
@@ -452,7 +480,9 @@ func intrTimeNow(e *Exec, st *State, fr *Frame, args []Val, in ssa.Instruction, 
 }
 
 func intrTimeAdd(e *Exec, st *State, fr *Frame, args []Val, in ssa.Instruction, rt types.Type) []callRes {
-	e.needInt("Time.Add")
+	if !e.IntMode {
+		return e.timeAbstract(st, rt, "Add")
+	}
 	c := e.C
 	t := args[0].(*TimeVal)
 	d := args[1].(*Term)
@@ -493,7 +523,9 @@ func intrTimeIsZero(e *Exec, st *State, fr *Frame, args []Val, in ssa.Instructio
 }
 
 func intrTimeSub(e *Exec, st *State, fr *Frame, args []Val, in ssa.Instruction, rt types.Type) []callRes {
-	e.needInt("Time.Sub")
+	if !e.IntMode {
+		return e.timeAbstract(st, rt, "Sub")
+	}
 	c := e.C
 	a, b := args[0].(*TimeVal), args[1].(*TimeVal)
 	v := c.Add(c.Mul(c.Sub(a.Sec, b.Sec), c.Inti(1000000000)), c.Sub(a.Nsec, b.Nsec))
@@ -553,7 +585,7 @@ func intrStrMapSameLen(kind string) intrinsic {
 		src := s
 		fn := "ascii_" + kind
 		e.arrFnID++
-		base := &ArrBase{Name: nm + ".arr", Elem: es}
+		base := e.arrBase(nm+".arr", types.Typ[types.Uint8])
 		// byte i: if the whole input is ASCII (abstracted by flag), out[i] = asciimap(in[i])
 		ascii := c.Var(nm+".ascii", BoolS)
 		st.assume(c.Implies(ascii, c.Eq(l, s.Len)))
@@ -784,4 +816,243 @@ func init() {
 	intrinsics["(*math/big.Int).Add"] = bigBin(func(c *Ctx, a, b *Term) *Term { return c.Add(a, b) })
 	intrinsics["(*math/big.Int).Sub"] = bigBin(func(c *Ctx, a, b *Term) *Term { return c.Sub(a, b) })
 	intrinsics["(*math/big.Int).String"] = intrBigString
+}
+
+// ---- strings.Split / Fields (safety-level models: shape only) ----
+
+func (e *Exec) splitResult(st *State, elem types.Type, name string, minN int64, maxN *Term, maxElem *Term) *SliceVal {
+	c := e.C
+	r := e.symList(st, elem, c.FreshName(name))
+	e.metaAll[r.Obj].Param = false
+	e.metaAll[r.Obj].Fresh = true
+	st.assume(c.Not(r.Nil))
+	st.assume(e.leIdx(e.idx(minN), r.Len))
+	if maxN != nil {
+		st.assume(e.leIdx(r.Len, maxN))
+	}
+	av := st.Heap[r.Obj].(*ArrayVal)
+	st.Heap[r.Obj] = &ArrayVal{ElemT: av.ElemT, Len: av.Len, Sym: av.Sym, SymMax: maxElem}
+	return r
+}
+
+func intrSplit(e *Exec, st *State, fr *Frame, args []Val, in ssa.Instruction, rt types.Type) []callRes {
+	_, _, sl := e.seqOfVal(st, args[0])
+	elem := rt.Underlying().(*types.Slice).Elem()
+	r := e.splitResult(st, elem, "split", 1, e.C.Add(sl, e.idx(1)), sl)
+	if s, ok := args[0].(*StringVal); ok {
+		if sep, ok := args[1].(*StringVal); ok {
+			if cnt, ok := e.sepCount(st, s, sep); ok {
+				st.assume(e.C.Eq(r.Len, e.C.Add(cnt, e.idx(1))))
+			}
+		}
+	}
+	return []callRes{{st, r}}
+}
+
+// sepCount: number of occurrences of a constant one-byte separator in s (exact for literal segments,
+// an uninterpreted function of the string identity for symbolic inputs).
+func (e *Exec) sepCount(st *State, s, sep *StringVal) (*Term, bool) {
+	c := e.C
+	lit, ok := concreteString(sep)
+	if !ok || len(lit) != 1 {
+		return nil, false
+	}
+	b := lit[0]
+	if s.Tag != nil {
+		total := e.idx(0)
+		for _, sg := range s.Tag.Segs {
+			switch sg.Kind {
+			case "lit":
+				n := 0
+				for i := 0; i < len(sg.Lit); i++ {
+					if sg.Lit[i] == b {
+						n++
+					}
+				}
+				total = c.Add(total, e.idx(int64(n)))
+			case "str":
+				sub, ok := e.sepCount(st, sg.S, sep)
+				if !ok {
+					return nil, false
+				}
+				total = c.Add(total, sub)
+			default:
+				isHexish := (b >= '0' && b <= '9') || (b >= 'a' && b <= 'f') || (b >= 'A' && b <= 'F') || b == '-'
+				if isHexish {
+					return nil, false
+				}
+			}
+		}
+		return total, true
+	}
+	if str, ok := concreteString(s); ok {
+		n := 0
+		for i := 0; i < len(str); i++ {
+			if str[i] == b {
+				n++
+			}
+		}
+		return e.idx(int64(n)), true
+	}
+	var cnt *Term
+	if id := e.strIdent(s); id != nil {
+		cnt = c.App(fmt.Sprintf("sepcount_%02x", b), e.idxSort(), id...)
+	} else {
+		cnt = c.Fresh("sepcount", e.idxSort())
+	}
+	st.assume(e.leIdx(cnt, s.Len))
+	if e.IntMode {
+		st.assume(c.ILe(c.Inti(0), cnt))
+	}
+	return cnt, true
+}
+
+func intrContains(e *Exec, st *State, fr *Frame, args []Val, in ssa.Instruction, rt types.Type) []callRes {
+	s, ok1 := args[0].(*StringVal)
+	sep, ok2 := args[1].(*StringVal)
+	if ok1 && ok2 {
+		if cnt, ok := e.sepCount(st, s, sep); ok {
+			return []callRes{{st, e.leIdx(e.idx(1), cnt)}}
+		}
+	}
+	return intrFreshBool(e, st, fr, args, in, rt)
+}
+
+func intrSplitN(e *Exec, st *State, fr *Frame, args []Val, in ssa.Instruction, rt types.Type) []callRes {
+	_, _, sl := e.seqOfVal(st, args[0])
+	elem := rt.Underlying().(*types.Slice).Elem()
+	n := args[2].(*Term)
+	c := e.C
+	r := e.splitResult(st, elem, "splitn", 0, c.Add(sl, e.idx(1)), sl)
+	// n > 0: at most n substrings; n == 0: nil; n < 0: all
+	st.assume(c.Implies(c.Lt(zeroOf(c, n.S), n, true), c.And(e.leIdx(r.Len, e.toIdx(n, types.Typ[types.Int])), e.leIdx(e.idx(1), r.Len))))
+	st.assume(c.Implies(c.Eq(n, zeroOf(c, n.S)), c.Eq(r.Len, e.idx(0))))
+	st.assume(c.Implies(c.Lt(n, zeroOf(c, n.S), true), e.leIdx(e.idx(1), r.Len)))
+	return []callRes{{st, r}}
+}
+
+func intrFields(e *Exec, st *State, fr *Frame, args []Val, in ssa.Instruction, rt types.Type) []callRes {
+	_, _, sl := e.seqOfVal(st, args[0])
+	elem := rt.Underlying().(*types.Slice).Elem()
+	r := e.splitResult(st, elem, "fields", 0, sl, sl)
+	return []callRes{{st, r}}
+}
+
+// Trim family: the result is a sub-window of the input.
+func intrTrimWindow(e *Exec, st *State, fr *Frame, args []Val, in ssa.Instruction, rt types.Type) []callRes {
+	c := e.C
+	a := c.Fresh("trim.lo", e.idxSort())
+	b := c.Fresh("trim.hi", e.idxSort())
+	switch s := args[0].(type) {
+	case *StringVal:
+		st.assume(c.And(e.leIdx(a, b), e.leIdx(b, s.Len)))
+		return []callRes{{st, &StringVal{C: s.C, Off: c.Add(s.Off, a), Len: c.Sub(b, a)}}}
+	case *SliceVal:
+		st.assume(c.And(e.leIdx(a, b), e.leIdx(b, s.Len)))
+		return []callRes{{st, &SliceVal{Obj: s.Obj, Path: s.Path, Off: c.Add(s.Off, a), Len: c.Sub(b, a), Cap: c.Sub(s.Cap, a), Nil: s.Nil, ElemT: s.ElemT}}}
+	}
+	e.bail("trim of %T", args[0])
+	return nil
+}
+
+func intrIndexOf(e *Exec, st *State, fr *Frame, args []Val, in ssa.Instruction, rt types.Type) []callRes {
+	c := e.C
+	_, _, sl := e.seqOfVal(st, args[0])
+	r := c.Fresh("index", e.idxSort())
+	minus1 := e.idx(-1)
+	if !e.IntMode {
+		st.assume(c.Or(c.Eq(r, minus1), c.ULt(r, sl)))
+	} else {
+		st.assume(c.And(c.ILe(minus1, r), c.ILt(r, c.Add(sl, c.Inti(1)))))
+	}
+	return []callRes{{st, r}}
+}
+
+func init() {
+	intrinsics["strings.Split"] = intrSplit
+	intrinsics["bytes.Split"] = intrSplit
+	intrinsics["strings.SplitN"] = intrSplitN
+	intrinsics["strings.Fields"] = intrFields
+	for _, n := range []string{"strings.TrimRight", "strings.TrimLeft", "strings.Trim", "bytes.TrimRight", "bytes.TrimLeft", "bytes.Trim", "bytes.TrimSpace"} {
+		intrinsics[n] = intrTrimWindow
+	}
+	for _, n := range []string{"strings.Index", "strings.LastIndex", "strings.IndexByte", "bytes.Index", "bytes.IndexByte", "strings.IndexRune", "strings.IndexAny"} {
+		intrinsics[n] = intrIndexOf
+	}
+}
+
+// ---- constructors of stdlib interface values: non-nil opaque results; base64 length relations ----
+
+func nonNilIface(withErr bool) intrinsic {
+	return func(e *Exec, st *State, fr *Frame, args []Val, in ssa.Instruction, rt types.Type) []callRes {
+		c := e.C
+		v := &IfaceVal{Opaque: true, IsNil: c.False(), ID: c.Fresh("obj", BV(64))}
+		if !withErr {
+			return []callRes{{st, v}}
+		}
+		okb := c.Fresh("ctor.ok", BoolS)
+		v.IsNil = c.Not(okb)
+		return []callRes{{st, TupleVal{v, &IfaceVal{Opaque: true, IsNil: okb, ID: c.Fresh("errid", BV(64))}}}}
+	}
+}
+
+func intrB64Decode(e *Exec, st *State, fr *Frame, args []Val, in ssa.Instruction, rt types.Type) []callRes {
+	s := args[len(args)-1].(*StringVal)
+	c := e.C
+	out := e.freshSliceObj(st, types.Typ[types.Uint8], "b64dec")
+	e.metaAll[out.Obj].Growable = false
+	st.assume(e.leIdx(out.Len, s.Len))
+	okb := c.Fresh("b64.ok", BoolS)
+	return []callRes{{st, TupleVal{out, &IfaceVal{Opaque: true, IsNil: okb, ID: c.Fresh("errid", BV(64))}}}}
+}
+
+func intrB64Encode(e *Exec, st *State, fr *Frame, args []Val, in ssa.Instruction, rt types.Type) []callRes {
+	_, _, sl := e.seqOfVal(st, args[len(args)-1])
+	r := e.freshString(st, "b64enc", 0)
+	if !e.IntMode {
+		// 4*ceil(n/3) <= 2n+4
+		st.assume(e.leIdx(r.Len, e.C.Add(e.C.Mul(sl, e.idx(2)), e.idx(4))))
+	}
+	return []callRes{{st, r}}
+}
+
+func init() {
+	intrinsics["crypto/cipher.NewCBCDecrypter"] = nonNilIface(false)
+	intrinsics["crypto/cipher.NewCBCEncrypter"] = nonNilIface(false)
+	intrinsics["crypto/aes.NewCipher"] = nonNilIface(true)
+	intrinsics["crypto/des.NewCipher"] = nonNilIface(true)
+	intrinsics["crypto/sha256.New"] = nonNilIface(false)
+	intrinsics["crypto/sha1.New"] = nonNilIface(false)
+	intrinsics["crypto/md5.New"] = nonNilIface(false)
+	intrinsics["crypto/hmac.New"] = nonNilIface(false)
+	intrinsics["(*encoding/base64.Encoding).DecodeString"] = intrB64Decode
+	intrinsics["(*encoding/base64.Encoding).EncodeToString"] = intrB64Encode
+}
+
+// ---- unicode/utf16: uninterpreted transcoding with length relations ----
+
+func intrUTF16Decode(e *Exec, st *State, fr *Frame, args []Val, in ssa.Instruction, rt types.Type) []callRes {
+	s := args[0].(*SliceVal)
+	out := e.freshSliceObj(st, types.Typ[types.Int32], "utf16dec")
+	e.metaAll[out.Obj].Growable = false
+	st.assume(e.leIdx(out.Len, s.Len))
+	st.assume(e.C.Eq(out.Cap, out.Len))
+	return []callRes{{st, out}}
+}
+
+func intrUTF16Encode(e *Exec, st *State, fr *Frame, args []Val, in ssa.Instruction, rt types.Type) []callRes {
+	s := args[0].(*SliceVal)
+	out := e.freshSliceObj(st, types.Typ[types.Uint16], "utf16enc")
+	e.metaAll[out.Obj].Growable = false
+	if !e.IntMode {
+		st.assume(e.leIdx(out.Len, e.C.Mul(s.Len, e.idx(2))))
+		st.assume(e.leIdx(s.Len, out.Len))
+	}
+	st.assume(e.C.Eq(out.Cap, out.Len))
+	return []callRes{{st, out}}
+}
+
+func init() {
+	intrinsics["unicode/utf16.Decode"] = intrUTF16Decode
+	intrinsics["unicode/utf16.Encode"] = intrUTF16Encode
 }
